@@ -151,7 +151,7 @@ class ObjectImpl(ClassImpl):
 
 
 OBJ_IDENT = ['assoc', 'distrib_left', 'distrib_right', 'norm_mult', 'conj_reverse', 'q_conjq', 'pow', 'matrix_form', 'inner_dot', 'pow_prod', 'neg_prod',
-             'iadd_distrib', 'imul_chain', 'imul_scalar', 'isub_add']
+             'iadd_distrib', 'imul_chain', 'imul_scalar', 'isub_add', 'matrix_replaced']
 IMPLS = {'base': BaseImpl(), 'class': ClassImpl(), 'class:objects': ObjectImpl(), 'class:int32': NarrowImpl(np.int32), 'class:int16': NarrowImpl(np.int16), 'class:float32': NarrowImpl(np.float32), 'class:int8': NarrowImpl(np.int8)}
 NARROW_IDENT = ['assoc', 'norm_mult', 'conj_reverse', 'q_conjq', 'matrix_form', 'inner_dot']      # (no + / -: NumPy adds in the narrow type)
 IDENT = ['assoc', 'distrib_left', 'distrib_right', 'norm_mult', 'conj_reverse', 'q_conjq', 'pow', 'matrix_form', 'inner_dot',
@@ -231,6 +231,18 @@ def run_num(ctx, p):
             ab = impl.mul(a, b)
             got, want, sc = impl.mul(ab, impl.conj(ab)), np.r_[(na * nb) ** 2, 0, 0, 0], (na * nb) ** 2
             refv = np.r_[(LD(na) * LD(nb)) ** 2, 0, 0, 0]
+        elif ident == 'matrix_replaced':
+            # the matrix form is that of the value the object holds NOW: read it, replace the value through the list interface
+            # (item assignment, or append + pop), read it again
+            x = S().Quaternion(c)
+            _first = np.array(x.matrix)
+            if n % 2:
+                x[0] = S().Quaternion(a)
+            else:
+                x.append(S().Quaternion(a))
+                x.pop(0)
+            got, want, sc = np.asarray(x.matrix) @ b, impl.mul(a, b), na * nb
+            refv = ref.qmul(a, b)
         elif ident == 'iadd_distrib':
             # the augmented operators are the plain ones: acc = ab; acc += ac is a(b + c)
             acc = impl.mul(a, b)
